@@ -52,6 +52,8 @@ func runC09(c *Ctx) {
 	r.Rule("R6-save-keeps-stamp", "SessionStore.Save implementations stamp CreatedAt only when unset", 2)
 
 	runC09R9(c, "R9-cookie-options-frozen")
+	r.Rule("R12-lifetime-written-by-loading-only", "Cookie.Expire, Refresh and CSRFExpire are written only by option loading and validation, also in private copies (round 8)", 1)
+	runC09R12(c, "R12-lifetime-written-by-loading-only")
 	runC09R10(c, "R10-refreshed-verdict")
 	runC09R11(c, "R11-issue-time-is-own-clock")
 
@@ -882,4 +884,50 @@ func runValidateWindowRule(c *Ctx, rule string) {
 		}
 		c.ok(rule, key+"|window", p.Exit, "t=Unix(Atoi(parts[1])); t.After(Now()-expiration) && t.Before(Now()+5m)")
 	})
+}
+
+// runC09R12 (round 8): the three durations of options.Cookie — Expire, Refresh, CSRFExpire — are written by option
+// loading and validation only, also in a private copy. The session stores, the ticket and encryption.Validate all take
+// their threshold, the Max-Age and the store TTL from the one Cookie.Expire they are handed; a constructor that "adds a
+// grace period for the store entry" to its own copy silently lengthens all three.
+func runC09R12(c *Ctx, rule string) {
+	cookieT := c.P.Named("pkg/apis/options.Cookie")
+	if cookieT == nil {
+		c.R.Unknown(rule, "anchor:options.Cookie", "-", "type pkg/apis/options.Cookie not found")
+		return
+	}
+	lifetime := map[string]bool{"Expire": true, "Refresh": true, "CSRFExpire": true}
+	n, bad := 0, 0
+	for _, fn := range c.P.ModFns {
+		pk := prog.Short(prog.FnPkg(fn).Path())
+		for _, b := range fn.Blocks {
+			for _, in := range b.Instrs {
+				st, ok := in.(*ssa.Store)
+				if !ok {
+					continue
+				}
+				fa, ok := st.Addr.(*ssa.FieldAddr)
+				if !ok {
+					continue
+				}
+				pt, ok := fa.X.Type().Underlying().(*types.Pointer)
+				if !ok || !types.Identical(pt.Elem(), cookieT) {
+					continue
+				}
+				f := walk.FieldOf(fa.X.Type(), fa.Field)
+				if f == nil || !lifetime[f.Name()] {
+					continue
+				}
+				n++
+				if strings.HasPrefix(pk, "pkg/apis/options") || pk == "pkg/validation" {
+					continue
+				}
+				bad++
+				c.R.Bad(rule, "lifetime-written|"+fnKey(fn), c.pos(in), "Cookie."+f.Name()+" is written outside option loading and validation (also a private copy counts: the stores, the ticket and the signature check take their threshold, Max-Age and store TTL from the Cookie they are handed)", nil, nil)
+			}
+		}
+	}
+	if bad == 0 {
+		c.R.OK(rule, "lifetime-written|none", "-", sprintf("%d store(s) to Cookie.Expire/Refresh/CSRFExpire, all in option loading or validation", n))
+	}
 }
